@@ -193,6 +193,13 @@ def c06_3(ctx):
                   unparse(base) if base is not None else unparse(kw_lit.test))
         for n in ins:
             ctx.check(g.dominates(g.node_of(kw_lit), g.node_of(n)), 'set:keyword-check-first', sl.site(n), 'the keyword check precedes the insertion', 'not dominated')
+    # a name the expression lexer reads as a number can never be referred to: it is refused where it is defined
+    up_ = [c for c in ast.walk(sl.node) if isinstance(c, ast.Call) and unparse(c.func) == 'self.parent.set_label_value']
+    for n in list(ins) + up_:
+        cl = facts_at(ctx, sl, n, res)
+        ok = any(len(c) == 1 and next(iter(c))[0] == 'call' and 'is_string_numeric(' in next(iter(c))[1] and lab in next(iter(c))[1] and next(iter(c))[-1] is False for c in cl)
+        ctx.check(ok, 'set:numeric-looking-name-rejected', sl.site(n), 'a label or constant is stored (or passed up) only if its name does not read as a numeric literal',
+                  f'{describe_facts(cl)}: `EACH:` is accepted and `jmp EACH` then assembles the number $0EAC')
     for n in ins:
         cl = facts_at(ctx, sl, n, res)
         ok = clause_implies(cl, lit_cmp(ctx, sl, f'{lab} not in self._labels', res)) and unparse(n.targets[0].slice) == lab
@@ -489,6 +496,7 @@ _L = 'assembler/label_scope/__init__.py'
 _A = 'assembler/assembly_file.py'
 _LL = 'assembler/line_object/label_line.py'
 MUTANTS = [
+    V('c06-numeric-looking-label-accepted', 'assembler/label_scope/__init__.py', "        if is_string_numeric(label):\n", "        if False and is_string_numeric(label):\n", 'C06.3'),
     V('c06-same-value-duplicate-accepted', 'assembler/label_scope/__init__.py', "            else:\n                sys.exit(f\"ERROR: {line_id} - Label '{label}' is defined multiple times at scope {self}\")", "            elif self._labels[label].value == value:\n                return\n            else:\n                sys.exit(f\"ERROR: {line_id} - Label '{label}' is defined multiple times at scope {self}\")", 'C06.3'),
     V('c06-include-parent-file-scope', _A, 'file_obj = AssemblyFile(new_filepath, self.label_scope.parent)', 'file_obj = AssemblyFile(new_filepath, self.label_scope)', 'C06.2'),
     V('c06-duplicate-allowed', _L, "            if label not in self._labels:\n                self._labels[label] = LabelScope.LabelInfo(label, value, line_id)\n            else:\n                sys.exit(f\"ERROR: {line_id} - Label '{label}' is defined multiple times at scope {self}\")",
